@@ -46,6 +46,22 @@ class _Phys:
         return [physprop.OthersUntouched()]
 
 
+def init_layout(sb, layout):
+    """`rocfl init` with the configuration the omit-prefix layouts need (delimiter ':')"""
+    import json, os
+    a = ["init", "-l", layout]
+    if layout.startswith(("0006", "0007")):
+        cfg = {"extensionName": layout, "delimiter": ":"}
+        if layout.startswith("0007"):
+            cfg.update(tupleSize=2, numberOfTuples=2)
+        p = os.path.join(sb.dir, "layout-config.json")
+        json.dump(cfg, open(p, "w"))
+        a += ["-c", p]
+    r = sb.run(a)
+    os.path.exists(os.path.join(sb.dir, "layout-config.json")) and os.unlink(os.path.join(sb.dir, "layout-config.json"))
+    return r
+
+
 def inner_ids_phase(rep, tier, seed):
     """ids that map into the directories of a committed object (its version, content and extensions directories, one or
     several levels down): creating, committing and purging them leaves that object byte for byte as it was"""
@@ -61,15 +77,17 @@ def inner_ids_phase(rep, tier, seed):
                 os.makedirs(os.path.dirname(fp), exist_ok=True)
                 open(fp, "wb").write(c)
             layout, pre = rng.choice([("0002-flat-direct-storage-layout", ""), ("0006-flat-omit-prefix-storage-layout", "urn:a:")])
-            sb.run(["init", "-l", layout])
-            outer = pre + "p"
+            init_layout(sb, layout)
+            # the committed object sits one, two or three levels below the storage root
+            base = rng.choice(["p", "coll/item", "a/b/c"])
+            outer = pre + base
             sb.run(["new", outer]); sb.run(["cp", "-r", outer, os.path.join(sb.src, "a.txt"), os.path.join(sb.src, "d"), "--", "/"])
             sb.run(["commit", "-c", faultprop.TS, outer])
-            root_p = os.path.join(sb.root, "p")
+            root_p = os.path.join(sb.root, base)
             if not os.path.isdir(root_p):
                 continue
             before = phys.tree(root_p)
-            inner = [pre + x for x in rng.sample(["p/v1/content", "p/v1/content/x", "p/v1/content/d", "p/v1/content/d/deeper/still", "p/v1", "p/extensions/e", "p/v1/content/a.txt/z"], 4)]
+            inner = [pre + base + "/" + x for x in rng.sample(["v1/content", "v1/content/x", "v1/content/d", "v1/content/d/deeper/still", "v1", "extensions/e", "v1/content/a.txt/z", "part1", "part1/deeper"], 5)]
             for oid in inner:
                 for args in (["new", oid], ["cp", oid, os.path.join(sb.src, "a.txt"), "--", "/"], ["commit", "-c", faultprop.TS, oid], ["purge", "-f", oid]):
                     r = sb.run(args)
@@ -79,6 +97,29 @@ def inner_ids_phase(rep, tier, seed):
                     if after != before:
                         fails.append("`%s %s` (exit %d) changed the committed object `%s`: %s" % (args[0], oid, r["rc"], outer, sorted(set(before.items()) ^ set(after.items()))[:3]))
                         before = after
+        finally:
+            sb.close()
+    # ids that the omit-prefix layouts map to one and the same object root: operations on the id that is not stored
+    # there leave the stored object alone
+    for i, layout in enumerate(["0006-flat-omit-prefix-storage-layout", "0007-n-tuple-omit-prefix-storage-layout"] * (1 if tier != "thorough" else 4)):
+        sb = phys.Sandbox(ext_staging=(i % 2 == 1))
+        try:
+            open(os.path.join(sb.src, "a.txt"), "wb").write(b"alpha")
+            init_layout(sb, layout)
+            sb.run(["new", "urn:a:obj1"]); sb.run(["cp", "urn:a:obj1", os.path.join(sb.src, "a.txt"), "--", "/"])
+            r0 = sb.run(["commit", "-c", faultprop.TS, "urn:a:obj1"])
+            if r0["rc"] != 0:
+                continue
+            before = phys.tree(sb.root, exclude=("extensions/rocfl-staging",))
+            for args in (["purge", "-f", "urn:b:obj1"], ["new", "urn:b:obj1"], ["cp", "urn:b:obj1", os.path.join(sb.src, "a.txt"), "--", "/"],
+                         ["commit", "-c", faultprop.TS, "urn:b:obj1"], ["purge", "-f", "urn:b:obj1"]):
+                r = sb.run(args)
+                rep.evaluations += 1
+                rep.classes.add("collide|%s|%s|rc%d" % (layout[:4], args[0], min(r["rc"], 3)))
+                after = phys.tree(sb.root, exclude=("extensions/rocfl-staging",))
+                if after != before:
+                    fails.append("`%s urn:b:obj1` (exit %d, layout %s) changed the repository that holds `urn:a:obj1` at the same object root: %s" % (args[0], r["rc"], layout[:4], sorted(set(before.items()) ^ set(after.items()))[:3]))
+                    before = after
         finally:
             sb.close()
     seen = set()
